@@ -217,8 +217,14 @@ func respCells(tier string) []cells.Cell {
 		s.Comp.Responses = []spec.NamedResponse{{Name: "Slow", Response: &spec.Response{Desc: "r", Headers: []*spec.Header{{Name: "Retry-After", Ref: "Counter"}}}}}
 		s.Paths = []*spec.PathItem{{Template: "/p", Ops: []*spec.Op{{Method: "GET", Responses: []*spec.Response{
 			{Status: "200", Desc: "r", Headers: []*spec.Header{{Name: "X-Total-Count", Ref: "Counter"}}},
-			{Status: "202", Desc: "r", Headers: []*spec.Header{{Name: "X-Queue-Length", Ref: "Counter"}, {Name: "X-Total-Count", Ref: "Counter"}}},
+			{Status: "202", Desc: "r", Headers: []*spec.Header{{Name: "X-Queue-Length", Ref: "Counter"}}},
 			{Status: "429", Ref: "Slow"}}}}}}
+	})
+	mk("header-component-twice-in-one-response", func(s *spec.Spec) {
+		s.Comp.Headers = []spec.NamedHeader{{Name: "Counter", Header: &spec.Header{Schema: spec.TF("integer", "int32")}}}
+		s.Paths = []*spec.PathItem{{Template: "/p", Ops: []*spec.Op{{Method: "GET", Responses: []*spec.Response{
+			{Status: "200", Desc: "r", Headers: []*spec.Header{{Name: "X-Queue-Length", Ref: "Counter"}, {Name: "X-Total-Count", Ref: "Counter"}}},
+			{Status: "default", Desc: "d", Headers: []*spec.Header{{Name: "X-Total-Count", Ref: "Counter"}}}}}}}}
 	})
 	mk("array-headers", func(s *spec.Spec) {
 		s.Comp.Headers = []spec.NamedHeader{{Name: "Ids", Header: &spec.Header{Schema: spec.Arr(spec.TF("integer", "int64"))}}}
